@@ -2,6 +2,7 @@
 package all
 
 import (
+	_ "verif/scenarios/c04"
 	_ "verif/scenarios/c10"
 	_ "verif/scenarios/c11"
 	_ "verif/scenarios/c17"
